@@ -38,12 +38,14 @@ pub fn explore_all(rep: &Arc<Reporter>, scns: Vec<Scenario>, dfs: bool) -> E1Tot
         samples: vec![],
         actions: Default::default(),
     };
-    // small scenarios: run several concurrently, each single-threaded BFS; large ones get all threads
+    // phase 1: scenarios run concurrently, each single-threaded, with a state cap; phase 2: the
+    // ones that hit the cap are re-run from scratch one at a time on all threads (no cap).
     let queue = std::sync::Mutex::new(scns.into_iter().enumerate().collect::<Vec<_>>());
     let results = std::sync::Mutex::new(vec![]);
-    let par = if dfs { 1 } else { threads };
+    let heavy = std::sync::Mutex::new(vec![]);
+    let _ = dfs;
     std::thread::scope(|sc| {
-        for _ in 0..par {
+        for _ in 0..threads {
             sc.spawn(|| loop {
                 let item = queue.lock().unwrap().pop();
                 let (idx, scn) = match item {
@@ -52,11 +54,19 @@ pub fn explore_all(rep: &Arc<Reporter>, scns: Vec<Scenario>, dfs: bool) -> E1Tot
                 };
                 let name = scn.name.clone();
                 let t0 = std::time::Instant::now();
-                let r = model::explore(scn, rep.clone(), if dfs { threads } else { 1 }, dfs, true);
-                results.lock().unwrap().push((idx, name, r, t0.elapsed().as_secs_f64()));
+                match model::explore(scn.clone(), rep.clone(), 1, false, true, Some(30000)) {
+                    Some(r) => results.lock().unwrap().push((idx, name, r, t0.elapsed().as_secs_f64())),
+                    None => heavy.lock().unwrap().push((idx, scn)),
+                }
             });
         }
     });
+    for (idx, scn) in heavy.into_inner().unwrap() {
+        let name = scn.name.clone();
+        let t0 = std::time::Instant::now();
+        let r = model::explore(scn, rep.clone(), threads, false, true, None).expect("uncapped run");
+        results.lock().unwrap().push((idx, name, r, t0.elapsed().as_secs_f64()));
+    }
     let mut results = results.into_inner().unwrap();
     results.sort_by_key(|x| x.0);
     for (_, name, r, secs) in results {
@@ -115,8 +125,17 @@ pub fn run(prop: &str, tier: Tier) -> i32 {
     let rep = Arc::new(Reporter::new(prop, tier));
     let dfs = false;
     let scns = match prop {
-        "C01" => scenarios::c01(tier),
+        "C01" => {
+            let mut v = scenarios::c01(tier);
+            v.extend(scenarios::c01_presets());
+            v
+        }
         "C13" => scenarios::c13(tier),
+        "C04" => scenarios::c04(tier),
+        "C05" => scenarios::c05(tier),
+        "C10" => scenarios::c10(tier),
+        "C12" => scenarios::c12(tier),
+        "C16" => scenarios::c16(tier),
         _ => panic!("no e1 scenarios for {}", prop),
     };
     let t = explore_all(&rep, scns, dfs);
